@@ -405,8 +405,8 @@ PROPS = {
                   "order with gaps of 0-40 s (also beyond the original restart time). At every instant the Loc-RIB (presence, stale "
                   "flag, LLGR_STALE) and the wire views of two observers (one LLGR-capable, one not) are compared with a reference "
                   "model of RFC 4724 / 8538 / 9494 as summarised by the property."),
-        "note": ("Not generated: the restarting-speaker side (deferral of the server's own advertisements), a second loss during the "
-                 "restart window, GR capabilities that differ between the two sessions (forwarding bit cleared, family dropped), "
+        "note": ("A second transport loss inside the restart window is generated (RFC 4724 4.2 consecutive restarts). Not generated: "
+                 "the restarting-speaker side (deferral of the server's own advertisements), GR capabilities that differ between the two sessions (forwarding bit cleared, family dropped), "
                  "restart time 0, depreference of LLGR-stale routes against fresh ones."),
         "technique": "model-based property testing (rapid) of session-loss timelines in virtual time against a reference model of stale-route lifetime",
         "rule": ("non-trivial when the loss is graceful under the reference (routes are retained as stale) ; distinct by case hash"),
